@@ -73,6 +73,16 @@ func (e *SpecEnv) setResults(fn *ssa.Function, results []Value) {
 }
 
 func (x *Exec) evalClauseInFrame(st *State, fr *Frame, c *Clause, lp *Loop) (*Term, error) {
+	if c.Kind == "commonpost" {
+		// relative to the entry of the function under verification, whatever frame the loop is in
+		root := st.frames[0]
+		env := x.newSpecEnv(st, st.old, root.fn)
+		env.bindRootParams(root)
+		if st.old == nil {
+			env.old = st
+		}
+		return env.evalBool(c.Expr)
+	}
 	env := x.newSpecEnv(st, st.old, fr.fn)
 	env.bindRootParams(fr)
 	env.loop = lp
@@ -83,7 +93,7 @@ func (x *Exec) evalClauseInFrame(st *State, fr *Frame, c *Clause, lp *Loop) (*Te
 	if c.Kind == "recvinv" && len(fr.fn.Params) > 0 {
 		env.vars[c.Param] = fr.env[fr.fn.Params[0]]
 	}
-	if !fr.root {
+	if !fr.root && c.Kind != "commonpost" {
 		// a loop inside an inlined callee: old(...) is not meaningful there
 		env.old = st
 	}
@@ -731,6 +741,26 @@ func (e *SpecEnv) call(n *ast.CallExpr) (Value, error) {
 				return nil, err
 			}
 			return Sel("err_msg", a), nil
+		case "mapsKept":
+			// mapsKept("Mp_..."): every map of that content sort that existed at entry has its entry content
+			lit, ok := n.Args[0].(*ast.BasicLit)
+			if !ok {
+				return nil, fmt.Errorf("mapsKept needs a sort name")
+			}
+			cs, _ := strconv.Unquote(lit.Value)
+			if e.x.w.dts[cs] == nil {
+				return nil, fmt.Errorf("unknown map content sort %s", cs)
+			}
+			oldAlloc := e.old.alloc
+			if oldAlloc == nil {
+				oldAlloc = IntT(0)
+			}
+			e.x.fresh++
+			r := VarT(fmt.Sprintf("r!m%d", e.x.fresh), "Int")
+			hNew := e.x.heap(e.st, cs)
+			hOld := e.x.heap(e.old, cs)
+			return Quant("forall", []*Term{r}, Implies(And(Cmp("<", IntT(0), r), Cmp("<=", r, oldAlloc)),
+				Eq(App("select", cs, hNew, r), App("select", cs, hOld, r)))), nil
 		case "bytesOf":
 			t, err := e.evalTerm(n.Args[0])
 			if err != nil {
